@@ -21,12 +21,19 @@ Ptn2(w) == Has(w, ">") /\ S3(w) = <<>>
 Digits == {"0", "1", "2", "3"}
 AllDigits(t) == t # <<>> /\ \A i \in 1..Len(t) : t[i] \in Digits
 
+\* NAME='...' / NAME="...": parse_line keeps the quotes of such a word in its text and gives it no separator; it is passed
+\* through like a quoted word (regex ^[a-zA-Z0-9_]+=('.*'|".*")$)
+NameCh(c) == c \in {"a", "b", "x", "_", "0", "1", "2", "3"}
+QuotedAssign(w) == \E k \in 2..(Len(w) - 2) :
+                     /\ w[k] = "=" /\ \A j \in 1..(k - 1) : NameCh(w[j])
+                     /\ w[k + 1] \in {"'", "\""} /\ w[Len(w)] = w[k + 1]
 Tk(sp, tx) == [sep |-> sp, text |-> tx]
 Q0 == [ok |-> TRUE, err |-> "", tokens |-> <<>>, redirs |-> <<>>, cont |-> FALSE, c1 |-> <<>>, c2 |-> <<>>]
 Fail(s, e) == [s EXCEPT !.ok = FALSE, !.err = e]
 StepQ(s, t) ==
   IF ~s.ok THEN s
   ELSE IF t.sep # "" /\ ~s.cont THEN [s EXCEPT !.tokens = Append(@, t)]
+  ELSE IF ~s.cont /\ QuotedAssign(t.text) THEN [s EXCEPT !.tokens = Append(@, t)]
   ELSE IF s.cont
        THEN IF t.sep = "" /\ t.text # <<>> /\ t.text[1] = "&" THEN Fail(s, "bad redirection syntax near &")
             ELSE IF AllDigits(s.c1)
